@@ -314,7 +314,7 @@ M.contract(P_PSE + ':execute_phase',
            requires=lambda header_executor_for_comment, header_executor_for_instruction:
            is_do_nothing(header_executor_for_comment) and is_do_nothing(header_executor_for_instruction),
            setup=_monitor_start(lambda args: args['phase_contents']._elements),
-           modifies=MONITOR_FRAME,
+           modifies=MONITOR_FRAME, event='execute-phase',
            returns=Dependent(lambda interp, name, env:
                              Opt(instruction_failure_shape(env['phase_step'],
                                                            statuses_of(env['instruction_executor']))).make(interp, name)),
@@ -1397,3 +1397,121 @@ def _constants(ctx):
                    all(any(v is c for c in CANONICAL) or v in (S.CONFIGURATION__MAIN, S.CLEANUP__MAIN)
                        for v in all_steps) and len(all_steps) == len(CANONICAL) - 1 + 2, 'enumeration',
                    detail={'steps': [str(v) for v in all_steps]})
+
+
+# ====================================================================================== full execution
+from exactly_lib.execution.full_execution import execution as fex
+from exactly_lib.execution.full_execution.result import FullExeResult, FullExeResultStatus
+from exactly_lib.test_case import test_case_doc
+from exactly_lib.test_case.phases.configuration import ConfigurationBuilder
+from exactly_lib.test_case.test_case_status import TestCaseStatus
+from contracts.C02_outcome import verdict      # the documented table status x assertion outcome -> verdict (C02)
+
+P_FEX = 'exactly_lib.execution.full_execution.execution'
+
+CONF_KINDS = [m for m in ExecutionFailureStatus if m.name in KINDS_OF_STEP[S.CONFIGURATION__MAIN]]
+
+
+class ConfigurationBuilderI(Interface):
+    """the builder as it is after conf/main (the instructions of [conf] set status, actor, home directories)"""
+    target_class = ConfigurationBuilder
+    attrs = {'test_case_status': EnumOf(TestCaseStatus), 'actor': Any_, 'hds': Any_}
+
+
+FULL_TEST_CASE = Inst(test_case_doc.TestCase, _tuple=[PHASE, PHASE, PHASE, PHASE, PHASE, PHASE])
+
+M.contract(P_FEX + ':execute_configuration_phase',
+           params=dict(phase_environment=Iface(ConfigurationBuilderI), configuration_phase=PHASE),
+           event='conf-main', modifies=MONITOR_FRAME,
+           returns=Opt(instruction_failure_shape(S.CONFIGURATION__MAIN, CONF_KINDS)),
+           ensures={
+               'runs conf/main on the configuration phase, with the builder as environment':
+                   lambda phase_environment, configuration_phase, result, trace:
+                   len(trace) == 2 and trace[0][0] == 'execute-phase'
+                   and trace[0][1]['phase_step'] is S.CONFIGURATION__MAIN
+                   and trace[0][1]['phase_contents'] is configuration_phase
+                   and type(trace[0][1]['instruction_executor']) is psx.ConfigurationMainExecutor
+                   and trace[0][1]['instruction_executor']._phase_environment is phase_environment
+                   and trace[1] == ('execute-phase:returned', trace[0][1], result),
+               "failure: names conf/main, of one of that step's kinds": lambda result:
+               result is None or (result.failure_info.phase_step is S.CONFIGURATION__MAIN
+                                  and result.status.name in KINDS_OF_STEP[S.CONFIGURATION__MAIN]),
+           },
+           raises_only=())
+
+M.contract(P_FEX + ':new_configuration_phase_failure_from',
+           params=dict(phase_result=instruction_failure_shape(S.CONFIGURATION__MAIN, CONF_KINDS)), inline=True,
+           ensures={'the failure under the status of the same name, no sandbox, no outcome of the action to check':
+                    lambda phase_result, result:
+                    result.status.name == phase_result.status.name and result.failure_info is phase_result.failure_info
+                    and not result.has_sds and result.action_to_check_outcome is None},
+           raises_only=())
+
+PARTIAL_RESULT = Inst(PartialExeResult,
+                      _PartialExeResult__status=Opt(EnumOf(ExecutionFailureStatus)),
+                      _ResultBase__sds=Opt(Any_),
+                      _ResultBase__action_to_check_outcome=Opt(ATC_OUTCOME),
+                      _ResultBase__failure_info=Opt(Any_))
+
+# owned by C04 (stand-in): partial execution with the working directory preserved and the sandbox removed
+# afterwards unless it is to be kept.  It returns what executor.execute (above) returns and raises what that raises.
+M.contract('exactly_lib.execution.partial_execution.execution:execute', trusted=True,
+           params=dict(test_case=TEST_CASE, full_exe_input_conf=Any_, conf_phase_values=Any_, setup_handler=Any_,
+                       is_keep_sandbox=Bool),
+           event='partial-execution', returns=PARTIAL_RESULT, may_raise=(OSError,))
+M.trust('stand-in for the contract owned by C04: partial_execution.execution.execute returns the result of '
+        'executor.execute(Configuration(conf, conf_phase_values, setup_handler), test_case) and raises only what that raises')
+
+
+def _partial_executions(trace):
+    return [e for e in trace if e[0] == 'partial-execution']
+
+
+def _is_partial_execution_of(e, conf, configuration_builder, is_keep_sandbox, test_case):
+    b = e[1]
+    return tuple(b['test_case']) == (test_case.setup_phase, test_case.act_phase, test_case.before_assert_phase,
+                                     test_case.assert_phase, test_case.cleanup_phase) \
+        and b['full_exe_input_conf'] is conf and b['is_keep_sandbox'] is is_keep_sandbox \
+        and tuple(b['conf_phase_values']) == (configuration_builder.actor, configuration_builder.hds)
+
+
+def _full_outcome(trace, conf, configuration_builder, is_keep_sandbox, test_case, result):
+    conf_failure = trace[1][2]
+    if conf_failure is not None:
+        # a failing configuration phase is the outcome and nothing else runs
+        return len(trace) == 2 and result.status.name == conf_failure.status.name \
+            and result.failure_info is conf_failure.failure_info \
+            and not result.has_sds and result.action_to_check_outcome is None
+    if configuration_builder.test_case_status is TestCaseStatus.SKIP:
+        return len(trace) == 2 and result.status is FullExeResultStatus.SKIPPED and result.failure_info is None \
+            and not result.has_sds and result.action_to_check_outcome is None
+    # otherwise: one partial execution of the five phases, its outcome under the documented translation
+    partial = trace[3][2]
+    return len(trace) == 4 and trace[2][0] == 'partial-execution' and trace[3][0] == 'partial-execution:returned' \
+        and _is_partial_execution_of(trace[2], conf, configuration_builder, is_keep_sandbox, test_case) \
+        and result.status.name == verdict(configuration_builder.test_case_status, partial.status) \
+        and result.sds is partial.sds and result.failure_info is partial.failure_info \
+        and result.action_to_check_outcome is partial.action_to_check_outcome
+
+
+M.contract(P_FEX + ':execute',
+           params=dict(conf=Any_, configuration_builder=Iface(ConfigurationBuilderI), is_keep_sandbox=Bool,
+                       test_case=FULL_TEST_CASE),
+           returns=Inst(FullExeResult, _FullExeResult__status=EnumOf(FullExeResultStatus), _ResultBase__sds=Opt(Any_),
+                        _ResultBase__action_to_check_outcome=Opt(ATC_OUTCOME), _ResultBase__failure_info=Opt(Any_)),
+           event='full-execution',
+           ensures={
+               'conf/main runs first, on the configuration phase with the builder':
+                   lambda configuration_builder, test_case, trace:
+                   trace[0][0] == 'conf-main' and trace[0][1]['phase_environment'] is configuration_builder
+                   and trace[0][1]['configuration_phase'] is test_case.configuration_phase
+                   and trace[1][0] == 'conf-main:returned',
+               'conf failure / SKIP end the execution; else one partial execution, outcome by the documented table':
+                   lambda conf, configuration_builder, is_keep_sandbox, test_case, result, trace:
+                   _full_outcome(trace, conf, configuration_builder, is_keep_sandbox, test_case, result),
+               'never a success when a step failed': lambda result, trace:
+               result.status not in (FullExeResultStatus.PASS, FullExeResultStatus.XPASS)
+               or (trace[1][2] is None and trace[3][2].status is None),
+           },
+           raises={OSError: {'ensures': lambda trace: trace[-1][0] == 'partial-execution:raised'}},
+           raises_only=())
